@@ -56,6 +56,20 @@ def _denominator_kind(e: ast.AST, fn: ast.FunctionDef) -> Optional[Tuple[str, as
     return None
 
 
+def _value_root(e: ast.AST) -> str:
+    """the value an expression is a re-shaped view of: strips reshape/flatten/ravel/transpose/.T/astype/squeeze wrappers"""
+    while True:
+        mc = method_call(e)
+        if mc and mc[1] in ("reshape", "flatten", "ravel", "transpose", "astype", "squeeze", "copy", "conj"):
+            e = mc[0]
+        elif isinstance(e, ast.Attribute) and e.attr in ("T", "real"):
+            e = e.value
+        elif isinstance(e, ast.Call) and call_np(e) in ("reshape", "ravel", "transpose", "squeeze", "asarray", "array") and e.args:
+            e = e.args[0]
+        else:
+            return src(e)
+
+
 def _divisions(fn: ast.FunctionDef):
     """(node, denominator) for every `a / d` and `a /= d`"""
     for n in walk_no_nested(fn):
@@ -92,6 +106,13 @@ def norm(repo: Repo) -> List[Ob]:
             tag = f"{lvl or 'level?'}"
             ord_[tag] = ord_.get(tag, 0) + 1
             key = f"normaliser@{tag}#{ord_[tag]}"
+            # the normaliser is computed from the value it divides (not from the state before the operation, which has norm/trace 1)
+            numer = n.left if isinstance(n, ast.BinOp) else (n.target if isinstance(n, ast.AugAssign) else (n.args[0] if isinstance(n, ast.Call) else None))
+            if numer is not None and _value_root(numer) != _value_root(operand):
+                obs.append(bad("NORM", fi, key, props, n,
+                               f"`{src(n)[:70]}` divides `{src(numer)[:30]}` by the {'trace' if kind == 'TRACE' else 'norm'} of another value (`{src(operand)[:30]}`): "
+                               "the result is not renormalised (the other value already has unit norm/trace)"))
+                continue
             if lvl is None:
                 obs.append(skip("NORM", fi, key, props, n, f"{kind} normaliser at undetermined level {sorted(levels)}"))
             elif lvl == "Vector" and kind == "NORM2":
